@@ -152,6 +152,40 @@ def check(ctx, case, reqs, pend):
             pend.append((A.small_desc(case), got))
 
 
+def same_object_twice(ctx):
+    """a dimension object listed more than once in one cube (a variable crossed with itself, with or without another one in
+    between): every block is still the cube of the slices its labels name"""
+    from catii import ccube, xcube
+    rng = np.random.default_rng(ctx.seed + 13)
+    for cols, N in ((2, 9), (3, 14)):
+        A = rng.integers(0, 3, size=(N, cols))
+        C = rng.integers(0, 2, size=N)
+        mr = G.make_index(A, int(rng.integers(0, 3)))
+        cat = G.make_index(C, 0)
+        for dims, dense, name in (([mr, mr], [A, A], "[A, A]"), ([mr, cat, mr], [A, C, A], "[A, C, A]"), ([cat, mr, mr], [C, A, A], "[C, A, A]")):
+            shape = tuple(3 if d.ndim == 2 else 2 for d in dense)
+            desc = {"same_object_twice": name, "A": A.tolist(), "C": C.tolist(), "common_A": int(mr.common)}
+            ctx.case(desc, nontrivial=True)
+            ctx.hit("same_object_twice")
+            try:
+                res = np.asarray(ccube(dims, interacting_shape=shape).count(return_missing_as=(0, False))[0])
+                xres = np.asarray(xcube(dense, interacting_shape=shape).count(return_missing_as=(0, False))[0])
+            except Exception as e:
+                ctx.oracle_fail("count over %s raised %s: %s" % (name, type(e).__name__, str(e)[:80]), desc, cls="C13-raises")
+                continue
+            scaff = [range(d.shape[1]) if d.ndim == 2 else [None] for d in dense]
+            for js in itertools.product(*scaff):
+                cols1d = [d[:, j] if j is not None else d for d, j in zip(dense, js)]
+                exp = G.brute_table(cols1d, shape, N)
+                lab = tuple(j for j in js if j is not None)
+                ctx.evaluations += 1
+                if not np.array_equal(res[lab], exp) or not np.array_equal(xres[lab], exp):
+                    which = "ccube" if not np.array_equal(res[lab], exp) else "xcube"
+                    ctx.oracle_fail("%s count over %s (one dimension object listed twice): block %s is %s, the columns it names give %s" % (
+                        which, name, lab, (res if which == "ccube" else xres)[lab].tolist(), exp.tolist()), desc, cls="C13-block-direct")
+                    break
+
+
 def declared_huge(ctx):
     """sparse multi-axis dimensions declaring 2^28 .. 2^30 rows (a handful listed): the index cube switches to its
     thread pool by itself at this size; every block must still be the cube of the 1-D slices its label names"""
@@ -229,6 +263,7 @@ def run(ctx):
             ctx.hit("unit_scaffold")
             check(ctx, case, reqs, pend)
     declared_huge(ctx)
+    same_object_twice(ctx)
     if ctx.oracle_only:
         return
     for (desc, got), m in zip(pend, ctx.model.run(reqs)):
